@@ -139,34 +139,7 @@ def run(ctx):
                  key='crate|N3|color_profile-readers')
 
     # ---------- N4 chunk count selection
-    if pf is not None:
-        cs = q.calls(pf, 'asefile::parse::Chunk::read_all')
-        ctx.floor('Chunk::read_all calls', len(cs), 1)
-        for c in cs:
-            op = c.args[0]
-            l = op['p']['l'] if op['k'] in ('copy', 'move') else None
-            # follow copies to the user local
-            l = _c11.root_local(pf, op) if l is not None else None
-            defs = _c11.local_defs(pf, l) if l is not None else []
-            got = {}
-            for t, bb in defs:
-                t = expand(t, fx, 3, layout.noinl(fx))
-                inner, bad = layout.unwrap_value(t)
-                nm = bindings.get(inner[3], ('', ''))[1] if layout.is_read_term(inner) else show(inner)
-                zero_test = None
-                for cond, vals, a in q.guards(pf, bb):
-                    cond = expand(cond, fx, 3, layout.noinl(fx))
-                    if cond[0] == 'bin' and cond[1] in ('Eq', 'Ne') and q.const_val(cond[3]) == 0:
-                        sub, _ = layout.unwrap_value(cond[2])
-                        if layout.is_read_term(sub) and bindings.get(sub[3], ('', ''))[1] == 'new_chunks':
-                            truth = q.bool_outcome(pf, a, vals)
-                            zero_test = truth if cond[1] == 'Eq' else (not truth)
-                got[nm] = (zero_test, [c_ for c_ in layout.casts_on(t)[0]] if t[0] == 'cast' else [])
-            ok = set(got) == {'old_chunks', 'new_chunks'} and got['old_chunks'][0] is True and got['new_chunks'][0] is False and \
-                all(layout.value_preserving(a, b_) for a, b_ in got['old_chunks'][1])
-            ctx.inst('N4', 'chunk count', ok, 'chunk count = %s; must be old_chunks (zero-extended) when new_chunks == 0, else new_chunks'
-                     % {k: ('when new==0' if v[0] else 'when new!=0' if v[0] is False else 'UNGUARDED') for k, v in got.items()}, c.span,
-                     key=pf.name + '|N4')
+    chunk_count_selection(ctx, 'N4', bindings)
 
     # ---------- N5 pixel ratio
     _c15.pixel_ratio(ctx, rule='N5')
@@ -241,3 +214,51 @@ def run(ctx):
     iorules.exact_reads_only(ctx, rb, 'N2')
     iorules.take_bytes_length_check(ctx, 'N2')
     ctx.samples = [i for i in ctx.instances if i['rule'] in ('N1', 'N2', 'N3', 'N4', 'N6', 'N8')][:18]
+
+
+def chunk_count_selection(ctx, rule, bindings=None):
+    """the number of chunks read for a frame is the new (32 bit) count unless that is 0, else the zero-extended old count"""
+    fx = ctx.fx
+    if bindings is None:
+        import rule as R
+        spec = SP.load_spec()
+        tmp = R.Ctx('tmp', fx, 'quick')
+        tmp.root = getattr(ctx, 'root', None)
+        bindings, _ = layout.check_layout(tmp, spec, 'asefile::parse::parse_frame', spec['decoders']['asefile::parse::parse_frame'], rule='tmp')
+    pf = ctx.anchor('asefile::parse::parse_frame')
+    if pf is not None:
+        cs = q.calls(pf, 'asefile::parse::Chunk::read_all')
+        ctx.floor('Chunk::read_all calls', len(cs), 1)
+        for c in cs:
+            op = c.args[0]
+            l = op['p']['l'] if op['k'] in ('copy', 'move') else None
+            # follow copies to the user local
+            l = _c11.root_local(pf, op) if l is not None else None
+            defs = _c11.local_defs(pf, l) if l is not None else []
+            got = {}
+            for t, bb in defs:
+                t = expand(t, fx, 3, layout.noinl(fx))
+                inner, bad = layout.unwrap_value(t)
+                nm = bindings.get(inner[3], ('', ''))[1] if layout.is_read_term(inner) else show(inner)
+                zero_test = None
+                for cond, vals, a in q.guards(pf, bb):
+                    cond = expand(cond, fx, 3, layout.noinl(fx))
+                    if cond[0] == 'bin' and cond[1] in ('Eq', 'Ne') and q.const_val(cond[3]) in (0, 0xFFFF):
+                        sub, _ = layout.unwrap_value(cond[2])
+                        which = bindings.get(sub[3], ('', ''))[1] if layout.is_read_term(sub) else None
+                        truth = q.bool_outcome(pf, a, vals)
+                        if truth is None:
+                            continue
+                        eq = truth if cond[1] == 'Eq' else (not truth)
+                        if which == 'new_chunks' and q.const_val(cond[3]) == 0:
+                            zero_test = eq
+                        elif which == 'old_chunks' and q.const_val(cond[3]) == 0xFFFF:
+                            # the file format's own wording: the old field is authoritative unless it is 0xFFFF
+                            zero_test = not eq
+                got[nm] = (zero_test, [c_ for c_ in layout.casts_on(t)[0]] if t[0] == 'cast' else [])
+            ok = set(got) == {'old_chunks', 'new_chunks'} and got['old_chunks'][0] is True and got['new_chunks'][0] is False and \
+                all(layout.value_preserving(a, b_) for a, b_ in got['old_chunks'][1])
+            ctx.inst(rule, 'chunk count', ok, 'chunk count = %s; must be old_chunks (zero-extended) when new_chunks == 0 (or old_chunks != 0xFFFF), else new_chunks'
+                     % {k: ('when new==0' if v[0] else 'when new!=0' if v[0] is False else 'UNGUARDED') for k, v in got.items()}, c.span,
+                     key=pf.name + '|' + rule)
+
